@@ -1089,8 +1089,26 @@ def sweep(fx, R):
                                 ob_ = base_member(y.get('obj'))
                                 cal_ = fx.functions.get(y['fk'])
                                 if ob_ is not None and ob_.get('cls') == cls and ob_['name'] == src_ and cal_ is not None and not cal_.get('const') and not cal_.get('static'):
+                                    # the call counts when what it (transitively) stores meets what the refresh reads of the source object
+                                    scls = cal_.get('cls')
+                                    wr_, seen_, todo_ = set(), set(), [cal_]
+                                    while todo_ and len(seen_) < 40:
+                                        c0_ = todo_.pop()
+                                        if c0_['q'] in seen_ or c0_.get('body') is None:
+                                            continue
+                                        seen_.add(c0_['q'])
+                                        wr_ |= {bm['name'] for (bm, _) in stores_in(c0_['body']) if bm.get('cls') == scls}
+                                        todo_ += [fx.functions[z['fk']] for z in walk(c0_['body']) if isinstance(z, dict) and z.get('inrepo') and z.get('fk') in fx.functions and fx.functions[z['fk']].get('cls') == scls]
+                                    rd_ = set()
+                                    for (bm2, r2_) in st_:
+                                        for z in walk(r2_):
+                                            if isinstance(z, dict) and z.get('k') == 'MCall' and z.get('inrepo') and z.get('fk') in fx.functions and base_member(z.get('obj')) is not None \
+                                                    and base_member(z.get('obj'))['name'] == src_ and fx.functions[z['fk']].get('body') is not None:
+                                                rd_ |= member_reads(fx.functions[z['fk']]['body'], scls)
+                                    if rd_ and wr_ and not (rd_ & wr_):
+                                        continue                      # changes a part of the source the refreshed value is not computed from
                                     mut = True
-                                    how = 'calls %s.%s(), which is not const' % (src_, y.get('m'))
+                                    how = 'calls %s.%s(), which is not const%s' % (src_, y.get('m'), (' and stores ' + ', '.join(sorted(rd_ & wr_)[:3]) + ', which the refresh reads') if rd_ & wr_ else '')
                                     break
                     if mut:
                         lazy_.append((g, how))
